@@ -79,6 +79,7 @@ type c09Plan struct {
 type c09Ident struct {
 	dig        blob.Digest
 	start, end int64
+	req        int // ordinal of the chunksums response that handed out the URL (0: single-chunk layer)
 }
 
 type c09Occ struct {
@@ -140,6 +141,7 @@ type c09Reg struct {
 	pending  []*c09Pend
 	seen     map[blob.Digest]int            // requests (chunksums or chunk) per layer digest
 	bigSeen  map[blob.Digest]int            // chunksums requests per digest
+	reqN     int                            // chunksums requests of the attempt
 	entryOf  func(d blob.Digest, k int) int // index of the k-th entry with digest d
 	plans    map[int]*c09Plan               // by entry index
 	unknown  []string
@@ -195,13 +197,15 @@ func (r *c09Reg) RoundTrip(req *http.Request) (*http.Response, error) {
 		r.mu.Lock()
 		k := r.bigSeen[d]
 		r.bigSeen[d]++
+		r.reqN++
+		reqN := r.reqN
 		r.seen[d]++
 		entry := r.entryOf(d, k)
 		p := r.plan(d)
 		r.plans[entry] = p
 		for j, cs := range p.entries {
 			if p.fail == "" {
-				id := c09Ident{d, cs.start, cs.end}
+				id := c09Ident{d, cs.start, cs.end, reqN}
 				r.queues[id] = append(r.queues[id], c09Occ{entry*1000 + j, cs.pre})
 			}
 		}
@@ -240,7 +244,9 @@ func (r *c09Reg) RoundTrip(req *http.Request) (*http.Response, error) {
 		} else {
 			body = c09Str(sb.String())
 		}
-		loc := "http://blobs.example.com/v2/library/x/blobs/" + d.String()
+		// a blob URL of its own per chunksums response: chunk requests of two listings of the same
+		// digest stay distinguishable (their goroutines belong to different wait groups)
+		loc := fmt.Sprintf("http://blobs.example.com/v2/library/x/blobs/%s?req=%d", d.String(), reqN)
 		return c09Resp(req, 200, body, map[string]string{"Content-Location": loc}), nil
 	case "blobs":
 		d, _ := blob.ParseDigest(parts[4])
@@ -250,7 +256,8 @@ func (r *c09Reg) RoundTrip(req *http.Request) (*http.Response, error) {
 			r.unknown = append(r.unknown, "bad range "+req.Header.Get("Range"))
 			r.mu.Unlock()
 		}
-		id := c09Ident{d, s, e}
+		rq, _ := strconv.Atoi(req.URL.Query().Get("req"))
+		id := c09Ident{d, s, e, rq}
 		p := &c09Pend{id: id, ch: make(chan c09Answer, 1), ctx: req.Context()}
 		r.mu.Lock()
 		r.seen[d]++
@@ -374,6 +381,15 @@ func (g *c09Gen) beyondPlan(c []byte, size int64) *c09Plan {
 	return p
 }
 
+func (g *c09Gen) trueLen(d blob.Digest) int64 {
+	for _, c := range g.pool {
+		if c09Dig(c) == d {
+			return int64(len(c))
+		}
+	}
+	return -1
+}
+
 func (g *c09Gen) content() []byte {
 	return zzverif.Pick(g.rng, g.pool)
 }
@@ -416,8 +432,33 @@ func (g *c09Gen) genManifest() *c09Manifest {
 		n = 0
 	}
 	sizes := map[string]int64{}
+	used := map[string]int{}
 	mk := func() c09Layer {
 		c := g.content()
+		// A chunked digest is listed at most twice per manifest: with three listings and a plan
+		// reaching past the layer end the blob can be complete for the second (skipped) and
+		// oversized for the third (requested), and the fake registry cannot tell which entry a
+		// chunksums request comes from (needed to reconstruct the launch order).
+		for try := 0; try < 8; try++ {
+			if s, ok := sizes[string(c)]; ok && s >= g.thr && used[string(c)] >= 2 {
+				c = g.content()
+				continue
+			}
+			break
+		}
+		if s, ok := sizes[string(c)]; ok && s >= g.thr && used[string(c)] >= 2 {
+			c = r.Bytes(r.Range(1, 8)) // fresh content
+			g.pool = append(g.pool, c)
+		}
+		// A single-chunk digest is listed once when 1 < MaxStreams < unlimited: the client
+		// chooses the blob URL, so two listings send identical requests from goroutines that
+		// differ (wait group, closer holding a slot); which of them gets an answer would not
+		// be scripted.
+		if s, ok := sizes[string(c)]; ok && s < g.thr && used[string(c)] >= 1 && g.streams > 1 {
+			c = r.Bytes(r.Range(1, 8))
+			g.pool = append(g.pool, c)
+		}
+		used[string(c)]++
 		if s, ok := sizes[string(c)]; ok {
 			return c09Layer{pre: c, size: s}
 		}
@@ -870,7 +911,7 @@ func c09PullCase(t *testing.T, out *zzverif.Out, rng *zzverif.Rng, dir string, t
 		if manKind == "ok" {
 			for i, l := range all {
 				if l.size < g.thr {
-					id := c09Ident{l.dig(), 0, l.size - 1}
+					id := c09Ident{l.dig(), 0, l.size - 1, 0}
 					reg.queues[id] = append(reg.queues[id], c09Occ{i * 1000, l.pre})
 				}
 			}
@@ -920,6 +961,13 @@ func c09PullCase(t *testing.T, out *zzverif.Out, rng *zzverif.Rng, dir string, t
 					t.Fatalf("c09: client neither finished nor waiting (case %s)", tag)
 				}
 				counts = append(counts, strconv.Itoa(len(w)))
+				if os.Getenv("VERIF_DEBUG") != "" {
+					var ds []string
+					for _, p := range w {
+						ds = append(ds, fmt.Sprintf("%d:%s:%d-%d", p.occ.seq, p.id.dig.Short(), p.id.start, p.id.end))
+					}
+					fmt.Fprintf(os.Stderr, "c09 debug %s attempt=%d waiting=%v\n", tag, at, ds)
+				}
 				if rng.Chance(1, 30) && !calm {
 					// the registry stays silent past ReadTimeout (fake time): every waiting
 					// request is cancelled by its own timer with DeadlineExceeded
@@ -989,7 +1037,7 @@ func c09PullCase(t *testing.T, out *zzverif.Out, rng *zzverif.Rng, dir string, t
 		}
 		fmt.Fprintf(&sb, " %d", len(all))
 		for i := range all {
-			p := reg.plans[i]
+			p := attemptPlans[all[i].dig()] // one plan per digest and attempt, whichever entry asked
 			if p == nil || p.fail != "" {
 				sb.WriteString(" pfail")
 				continue
@@ -1111,7 +1159,7 @@ func c09PullCase(t *testing.T, out *zzverif.Out, rng *zzverif.Rng, dir string, t
 					}
 				case verify:
 					via = "unknown"
-				case f.sizeLie && trueLen[l.Digest] == l.Size:
+				case f.sizeLie && g.trueLen(l.Digest) == l.Size:
 					via = "size-lie-overwrote-linked-blob"
 				case f.sizeLie:
 					via = "chunked-size-lie"
